@@ -6,6 +6,7 @@ CONSTANTS
   CheckQuorum <- TCQ
   Mut = ""
   Collapsed = FALSE
+  MaxAppEnts = 1
 CONSTRAINT HW
 INVARIANTS ElectionSafety LearnerNeverCampaignsOrVotes VoteOncePerTerm LogMatching CommittedNeverTruncated StateMachineSafety LeaderCompleteness DurableCommit RestartSound
 POSTCONDITION Accepted
